@@ -15,11 +15,11 @@ from .shading import _int_offset, analyse_shading, check_strictly_above
 
 
 def _norm_gl(ctx, q):
-    """The method with a generator that is consumed by one loop written as the nested loops it stands for, and pairwise
+    """The method with private single-return helpers written out, with a generator that is consumed by one loop written as the nested loops it stands for, and pairwise
     tuple assignments split (`a, b = x[:i], x[i:]`)."""
     from .normalise import normalised
 
-    return normalised(ctx, ctx.func(q), "genloops")
+    return normalised(ctx, ctx.func(q), "valuecalls,genloops")
 
 PROPERTY = "C04"
 LEVEL = "other"
